@@ -423,8 +423,8 @@ Definition dispatch (p : program) (w : world) (q : qitem) : world :=
 (* ------------------------------------------------------------------ tick() and the driver *)
 
 (* The root's task set is iterated in an order the property quantifies over.  A schedule names tasks by
-   (token, handler index, kind): kind 0 = the handler generator itself, 1 = its outstanding call/wait
-   generator, 2 = its pending TimeoutError.  [order_by] moves the named tasks to the front, in the order
+   (token, handler index, kind): kind 0 = the handler generator itself, 1 = the one outstanding task of that
+   suspended handler (its call/wait generator or its pending TimeoutError - never both, Proofs: F_own).  [order_by] moves the named tasks to the front, in the order
    given; tasks it does not name keep their insertion order behind them.  The result is a permutation. *)
 Definition key := (nat * nat * nat)%type.
 
@@ -435,7 +435,7 @@ Definition tkey (w : world) (t : task) : key :=
   match t_ref t, t_parent t with
   | RGen g, _ => (gen_key w g, O)
   | RWait _, Some p => (gen_key w p, 1%nat)
-  | RTimeout _, Some p => (gen_key w p, 2%nat)
+  | RTimeout _, Some p => (gen_key w p, 1%nat)
   | _, None => ((O, O), 3%nat)
   end.
 
